@@ -1,5 +1,5 @@
 (* C05  Listings are complete, ordered, duplicate-free and paginate losslessly.
-   Statements only; proofs live in Proofs/Seq.v, Proofs/Listing.v, Proofs/ListingStack.v.
+   Statements only; proofs live in Proofs/Seq.v, Proofs/Listing.v, Proofs/ListingStack.v, Proofs/ListingFast.v.
 
    Vocabulary.  An iterator is [Seq err T] (Base/Seq.v): for every consumer - a function
    answering each yield call with "go on" or "stop", threading a state of its own - the
@@ -10,7 +10,7 @@
    byte order (hence duplicate-free).  [bltb start x] = start < x.  [wire] is what an
    error turns into when it crosses HTTP (arbitrary function; property C07 owns it). *)
 From Coq Require Import String.
-From OCI Require Import Model.Listing Model.ListingSpec Model.ListingLegacy Proofs.Seq Proofs.Listing Proofs.ListingStack.
+From OCI Require Import Model.Listing Model.ListingSpec Model.ListingLegacy Proofs.Seq Proofs.Listing Proofs.ListingStack Proofs.ListingFast.
 
 (* ------------------------------------------------------------------ the iterator protocol *)
 
@@ -333,6 +333,17 @@ Theorem C05_stack_complete_or_error :
        end.
 Proof. exact stack_listing_always. Qed.
 Print Assumptions C05_stack_complete_or_error.
+
+(* Closed form (used to evaluate the correspondence on listings of tens of thousands of names,
+   Obs/C05.v): against EVERY consumer, the calls a well-formed stack that must not fail makes
+   are exactly those of the canonical iterator over the stack's names after the start point,
+   sorted and without duplicates ([expected] = that list; Proofs/ListingFast.v). *)
+Theorem C05_stack_closed_form :
+  forall k q start S (y : consumer err bytes S) s,
+  stack_wfb k = true -> fails k q = FNo ->
+  calls (listing k q start) y s = trace_of (expected k q start) None y s.
+Proof. exact listing_closed. Qed.
+Print Assumptions C05_stack_closed_form.
 
 (* well-formed stacks exist at every shape; one with two hops, a Sub, a Select and a unify *)
 Example C05_stack_example :
